@@ -34,6 +34,12 @@ META = {
             "(scripted engine harness/recording_engine.hpp; park detection through syncMutex).",
 }
 
+# ---- additions of the translator / tie session
+META["text"] += (" The model's caller step (syncMutex held from before engine->connect until the caller is parked with its entry "
+                 "registered; the time-out close issued with the mutex released) is tied to the source: coq/Gen/ConnectShape.v "
+                 "(connectSync's lock / fence / connect / register / wait / close order from clang's AST, regenerated every run) "
+                 "and C04/GenTie.v connect_sync_generated_shape_ok.")
+
 
 class Mirror:
     """just enough of the model to emit only enabled operations"""
